@@ -45,7 +45,11 @@ func (p Prop[C]) Rapid(t *testing.T, g *rapid.Generator[C]) {
 	rapid.Check(t, func(rt *rapid.T) {
 		c := g.Draw(rt, "case")
 		if v := p.Eval(c); v != nil {
-			rt.Fatalf("VIOLATION %s: %s", p.ID, v.Msg)
+			// The message must be identical for identical input (rapid only
+			// shrinks when a re-run reproduces the same error text), so the
+			// detail, which may hold addresses and stack traces, stays in the
+			// replay file.
+			rt.Fatalf("VIOLATION %s (detail in the replay file)", p.ID)
 		}
 	})
 }
